@@ -211,6 +211,7 @@ type Path struct {
 	Loops   []int  // loops active at the end
 	EndPos  token.Pos
 	Blocks  []string
+	Carried map[int]*T // for iter: value of each loop-carried variable of the loop at the back edge
 }
 
 func (p *Path) String() string {
@@ -379,6 +380,7 @@ func (p *Prog) Paths(entry *ssa.Function, opts PSOpts) []*Path {
 		p.pathCache = map[string][]*Path{}
 	}
 	if ps, ok := p.pathCache[key]; ok {
+		p.lastPathKey = key
 		return ps
 	}
 	g := p.CG()
@@ -773,17 +775,26 @@ func (x *explorer) backEdge(st *state, fr *frame, h, prev *ssa.BasicBlock, l loo
 			pi = i
 		}
 	}
+	carried := map[int]*T{}
 	for _, id := range x.loopCars[l.id] {
 		o := x.carOf[id]
+		var v *T
 		if o.phi != nil {
 			if pi >= 0 {
-				x.carSrc[id] = append(x.carSrc[id], x.val(st, fr, o.phi.Edges[pi]))
+				v = x.val(st, fr, o.phi.Edges[pi])
 			}
 		} else {
-			x.carSrc[id] = append(x.carSrc[id], x.subst(st, st.cells[o.cell]))
+			v = x.subst(st, st.cells[o.cell])
+		}
+		if v != nil {
+			x.carSrc[id] = append(x.carSrc[id], v)
+			carried[id] = v
 		}
 	}
 	x.emit(st, "iter", nil, l.id, token.NoPos)
+	if n := len(x.paths); n > 0 && x.paths[n-1].End == "iter" {
+		x.paths[n-1].Carried = carried
+	}
 }
 
 // noteCellWrite: a store to a cell that existed before an active loop was entered means the cell
@@ -1032,6 +1043,9 @@ func (x *explorer) cond(st *state, t *T) (Atom, bool, bool) {
 				if a.Op == "fresh" || a.Op == "closure" || (a.Typ != nil && !nilableConcrete(a.Typ)) {
 					return Atom{}, true, neg
 				}
+				if neverNil(a) {
+					return Atom{}, true, neg
+				}
 				if isErrTerm(a) {
 					return Atom{Kind: "err", A: errSource(a), Neg: !neg}, false, false
 				}
@@ -1115,6 +1129,31 @@ func (x *explorer) cond(st *state, t *T) (Atom, bool, bool) {
 		}
 	}
 	return Atom{Kind: "truth", A: t}, false, false
+}
+
+// neverNil: results of constructors that never return nil.
+func neverNil(t *T) bool {
+	if t == nil || t.Op != "call" {
+		return false
+	}
+	switch t.Name {
+	case "fmt.Errorf", "errors.New":
+		return true
+	case "errors.Join":
+		for _, a := range t.Args {
+			if neverNil(a) {
+				return true
+			}
+			if a.Op == "lit" {
+				for _, e := range a.Args {
+					if neverNil(e) {
+						return true
+					}
+				}
+			}
+		}
+	}
+	return false
 }
 
 func nilableConcrete(t types.Type) bool {
@@ -1702,6 +1741,13 @@ func (x *explorer) call(st *state, fr *frame, b, prev *ssa.BasicBlock, idx int, 
 		x.effect(st, fr, Effect{Kind: kind, Callee: name, Fn: callee, Args: args, Res: ct, Pos: ci.Pos()})
 	}
 	if kind == "extcall" {
+		// a local variable passed by address to an external function is written by it
+		for i, a := range args {
+			if ck, ok := x.cellOf(a); ok {
+				x.noteCellWrite(st, ck)
+				st.cells[ck] = &T{Op: "out", Name: name, N: x.nTerms, Args: []*T{ct, mkConst(fmt.Sprint(i), nil)}, V: ck.al}
+			}
+		}
 		// closures handed to an external function: assume it may call them; their effects on
 		// captured cells are unknown -> havoc the cells they capture
 		for _, a := range args {
